@@ -3101,7 +3101,7 @@ fn script_wire(rng: &mut Rng, tier: Tier, f: &mut dyn FnMut(&str) -> String) {
 // profile 0: nc-regress — one fixed op list per repaired defect (deterministic, run on every check)
 // =============================================================================================
 
-const REGRESS_CASES: usize = 67;
+const REGRESS_CASES: usize = 68;
 
 fn regress_script(case: usize, f: &mut dyn FnMut(&str) -> String) {
     let mut rng = Rng::new(0xD1CE + case as u64);
@@ -3119,7 +3119,7 @@ fn regress_script(case: usize, f: &mut dyn FnMut(&str) -> String) {
     };
     let max = match case {
         7 | 19 | 22 | 37 => 1,
-        35 | 50 | 65 | 66 => 4,
+        35 | 50 | 65 | 66 | 67 => 4,
         13 => 3,
         _ => 2,
     };
@@ -5372,6 +5372,107 @@ fn regress_script(case: usize, f: &mut dyn FnMut(&str) -> String) {
             }
             sc.op("srv-dump 0");
         }
+        // four sessions in table slots 0..3 (ids 40, 41, 97, 98) on a four-seat server; the limit is lowered to 3 (nobody
+        // leaves: id 98 now sits in a slot at the new limit); the sessions in slots 0 and 1 leave by their own Disconnect
+        // datagrams (2 connected, limit 3); a client with a valid token for ANOTHER id (9) then runs its handshake from the
+        // ip:port of the session in slot 3, twice a send period apart. Lookups by id and payloads both ways for the
+        // sessions that stay — in particular the one whose address is used — before and after; the addresses of the
+        // connected clients are pairwise distinct at all times, payloads go to / come from the session authenticated for the id
+        67 => {
+            let mut more: Vec<Cl> = vec![];
+            for j in 0..3u64 {
+                let (id, a) = if j < 2 { (97 + j, a4(10, 9, 14, 1 + j as u8, 4991 + j as u16)) } else { (9, a4(10, 9, 14, 9, 4999)) };
+                let mut spec = base_spec(rng, id, proto, key, 5, &hosts);
+                spec.expire = 35;
+                spec.seal_expire = 35;
+                spec.timeout = 5;
+                spec.ud = vec![0xb0 + j as u8; 256];
+                if let Some(c) = new_client(&mut sc, 5 + j, &a, &spec, 5_000_000) {
+                    more.push(c);
+                }
+            }
+            if more.len() < 3 {
+                return;
+            }
+            if !fast_connect(&mut sc, &cls[0]) || !fast_connect(&mut sc, &cls[1]) || !fast_connect(&mut sc, &more[0]) || !fast_connect(&mut sc, &more[1]) {
+                return;
+            }
+            // (the newcomer's own address is never used: its datagrams arrive from the address of id 98)
+            let shared = more[1].addr.clone();
+            let stay: Vec<(u64, u64, String)> = vec![(5, 97, more[0].addr.clone()), (6, 98, shared.clone())];
+            let look = |sc: &mut Sc, tag: u8| {
+                sc.op("srv-dump 0");
+                for id in [40u64, 41, 97, 98, 9] {
+                    sc.op(&format!("srv-q 0 {}", id));
+                }
+                for (h, id, a) in stay.iter() {
+                    if let (_, Some(k)) = sc.opd(&format!("cli-pay {} {:02x}{:02x}0b", h, *id as u8, tag)) {
+                        let d = sc.hist[k].bytes.clone();
+                        sc.op("note expect-payload");
+                        sc.op(&format!("srv-rx 0 {} {}", a, hex(&d)));
+                    }
+                    if let (_, Some(k)) = sc.opd(&format!("srv-pay 0 {} {:02x}{:02x}d0", id, *id as u8, tag)) {
+                        let d = sc.hist[k].bytes.clone();
+                        sc.op("note expect-payload");
+                        sc.op(&format!("cli-rx {} {}", h, hex(&d)));
+                    }
+                }
+                // (whatever the newcomer's client object and the server have for id 9 at this point)
+                if let (_, Some(k)) = sc.opd(&format!("cli-pay 7 09{:02x}0b", tag)) {
+                    let d = sc.hist[k].bytes.clone();
+                    sc.op(&format!("srv-rx 0 {} {}", shared, hex(&d)));
+                }
+                if let (_, Some(k)) = sc.opd(&format!("srv-pay 0 9 09{:02x}d0", tag)) {
+                    let d = sc.hist[k].bytes.clone();
+                    sc.op(&format!("cli-rx 7 {}", hex(&d)));
+                }
+                sc.op("srv-dump 0");
+            };
+            sc.op("srv-setmax 0 3");
+            look(&mut sc, 0);
+            for i in 0..2usize {
+                if let (_, Some(k)) = sc.opd(&format!("cli-disc {}", i)) {
+                    let d = sc.hist[k].bytes.clone();
+                    sc.op(&format!("srv-rx 0 {} {}", cls[i].addr, hex(&d)));
+                }
+            }
+            look(&mut sc, 1);
+            // id 9 knocks from the address of id 98
+            for attempt in 0..2u8 {
+                let dt = if attempt == 0 { 0 } else { 250_000 };
+                if attempt == 1 {
+                    sc.op("srv-upd 0 250000");
+                }
+                if let (_, Some(k)) = sc.opd(&format!("cli-upd 7 {}", dt)) {
+                    let rq = sc.hist[k].bytes.clone();
+                    if let (_, Some(k)) = sc.opd(&format!("srv-rx 0 {} {}", shared, hex(&rq))) {
+                        let ch = sc.hist[k].bytes.clone();
+                        sc.op(&format!("cli-rx 7 {}", hex(&ch)));
+                        if let (_, Some(k)) = sc.opd("cli-upd 7 0") {
+                            let resp = sc.hist[k].bytes.clone();
+                            if let (_, Some(k)) = sc.opd(&format!("srv-rx 0 {} {}", shared, hex(&resp))) {
+                                let ka = sc.hist[k].bytes.clone();
+                                sc.op(&format!("cli-rx 7 {}", hex(&ka)));
+                            }
+                        }
+                    }
+                }
+                look(&mut sc, 2 + attempt);
+            }
+            // the sessions that stayed are kept up by keep-alives on both sides
+            sc.op("srv-upd 0 250000");
+            for (h, id, a) in stay.iter() {
+                if let (_, Some(k)) = sc.opd(&format!("srv-updc 0 {}", id)) {
+                    let r = sc.hist[k].bytes.clone();
+                    sc.op(&format!("cli-rx {} {}", h, hex(&r)));
+                }
+                if let (_, Some(k)) = sc.opd(&format!("cli-upd {} 250000", h)) {
+                    let d = sc.hist[k].bytes.clone();
+                    sc.op(&format!("srv-rx 0 {} {}", a, hex(&d)));
+                }
+            }
+            look(&mut sc, 4);
+        }
         // sequence 2^64-1 (the window's EMPTY sentinel) from the owner of a session
         _ => {
             fast_connect(&mut sc, &cls[0]);
@@ -5454,7 +5555,7 @@ fn regress_ops(case: usize) -> Vec<String> {
 /// To refresh after editing a script: `NC_FIXED_COUNTS=1 harness run --props C10 --profiles nc-regress,…` prints them.
 fn fixed_expected(tag: &str, case: usize) -> Option<usize> {
     const REGRESS: &[usize] = &[
-        30, 30, 30, 12, 16, 17, 24, 23, 30, 19, 21, 35, 33, 49, 551, 60, 85, 35, 50, 59, 69, 56, 43, 34, 26, 148, 104, 41, 49, 26, 44, 63, 36, 31, 38, 116, 26, 34, 70, 52, 541, 31, 42, 33, 30, 53, 52, 54, 103, 92, 63, 125, 32, 45, 68, 29, 129, 652, 675, 45, 50, 41, 52, 78, 50, 198, 198,
+        30, 30, 30, 12, 16, 17, 24, 23, 30, 19, 21, 35, 33, 49, 551, 60, 85, 35, 50, 59, 69, 56, 43, 34, 26, 148, 104, 41, 49, 26, 44, 63, 36, 31, 38, 116, 26, 34, 70, 52, 541, 31, 42, 33, 30, 53, 52, 54, 103, 92, 63, 125, 32, 45, 68, 29, 129, 652, 675, 45, 50, 41, 52, 78, 50, 198, 198, 165,
     ];
     match tag {
         "regress" => REGRESS.get(case).copied(),
